@@ -5,10 +5,12 @@ package wire
 
 import (
 	"bytes"
+	"encoding/hex"
 	"fmt"
 	"sort"
 	"strings"
 
+	"github.com/enfein/mieru/v3/apis/trafficpattern"
 	"github.com/enfein/mieru/v3/pkg/appctl/appctlpb"
 
 	"verif/engine/simnet"
@@ -396,4 +398,139 @@ func dirName(c2s bool) string {
 		return "client->server"
 	}
 	return "server->client"
+}
+
+// MonitorC16: explicit (and effective implicit) traffic-pattern settings are what the
+// emitted traffic exhibits.
+func MonitorC16(pats []xfer.NamedTP) xfer.Monitor {
+	return func(p xfer.Params, ex *world.Exec, v *xfer.Verdict) {
+		eff := func(name string) *appctlpb.TrafficPattern {
+			c, err := trafficpattern.NewConfig(xfer.FindTP(pats, name))
+			if err != nil {
+				return nil
+			}
+			return c.Effective()
+		}
+		ctp, stp := eff(p.CTP), eff(p.STP)
+		if ctp == nil || stp == nil {
+			v.Add("setup", "no effective pattern")
+			return
+		}
+		d := Decode(ex, CredsOf(ex.W.Cfg.Users))
+		for _, e := range d.Errs {
+			v.Add("undecodable", "%s", e)
+			return
+		}
+		clientLE := map[uint32]int64{} // session -> time of the first low-entropy segment of the client
+		firstNonce := map[string]bool{}
+		for _, r := range d.Recs {
+			s := r.Seg
+			tp, side := stp, "server"
+			if r.C2S {
+				tp, side = ctp, "client"
+			}
+			// padding maxima (0 = none)
+			if s.IsDataAck() && int32(s.Prefix) > tp.GetPadding().GetMaxMiddlePaddingLen() {
+				v.Add("padding/middle", "%s %v: %d bytes of middle padding, the %s's maximum is %d", side, s, s.Prefix, side, tp.GetPadding().GetMaxMiddlePaddingLen())
+				return
+			}
+			if int32(s.Suffix) > tp.GetPadding().GetMaxEndPaddingLen() {
+				v.Add("padding/end", "%s %v: %d bytes of end padding, the %s's maximum is %d", side, s, s.Suffix, side, tp.GetPadding().GetMaxEndPaddingLen())
+				return
+			}
+			// low entropy: mode and rotation as configured; the server only after the client
+			mode, rot := tp.GetLowEntropy().GetMode(), tp.GetLowEntropy().GetMaskRotation()
+			if s.IsLE() {
+				if mode == appctlpb.LowEntropyMode_LOW_ENTROPY_MODE_OFF {
+					v.Add("low-entropy/unconfigured", "%s emitted %v although its low-entropy mode is off", side, s)
+					return
+				}
+				if uint8(mode) != s.Mode || uint8(rot) != s.Rotation {
+					v.Add("low-entropy/parameters", "%s emitted %v, configured mode=%d rotation=%d", side, s, mode, rot)
+					return
+				}
+				if r.C2S {
+					if _, ok := clientLE[s.SessionID]; !ok {
+						clientLE[s.SessionID] = r.At
+					}
+				} else if t, ok := clientLE[s.SessionID]; !ok || t > r.At {
+					v.Add("low-entropy/server-first", "the server emitted %v before the client used low entropy on that session", s)
+					return
+				}
+			} else if s.IsData() && r.C2S && mode != appctlpb.LowEntropyMode_LOW_ENTROPY_MODE_OFF {
+				v.Add("low-entropy/not-used", "the client emitted plain %v although its low-entropy mode is %d", s, mode)
+				return
+			}
+			// nonce prefix
+			if s.Nonce != nil {
+				np := tp.GetNonce()
+				key := fmt.Sprintf("%s/%d", side, r.Conn)
+				if r.Dgram != nil {
+					// the client has one cipher per underlay (= per local UDP endpoint)
+					key = fmt.Sprintf("%s/%v", side, r.Dgram.From)
+				}
+				first := !firstNonce[key]
+				firstNonce[key] = true
+				applies := r.Dgram == nil || np.GetApplyToAllUDPPacket() || first
+				if r.Dgram != nil && !r.C2S && !np.GetApplyToAllUDPPacket() {
+					applies = false // which of a session's datagrams is the cipher's first is not visible on the wire
+				}
+				if applies {
+					switch np.GetType() {
+					case appctlpb.NonceType_NONCE_TYPE_PRINTABLE, appctlpb.NonceType_NONCE_TYPE_PRINTABLE_SUBSET:
+						for j := 0; j < int(np.GetMinLen()) && j < 12; j++ {
+							if s.Nonce[j] < 0x20 || s.Nonce[j] > 0x7e {
+								v.Add("nonce/not-printable", "%s nonce % x: byte %d is not printable, pattern type=%v minLen=%d", side, s.Nonce, j, np.GetType(), np.GetMinLen())
+								return
+							}
+						}
+					case appctlpb.NonceType_NONCE_TYPE_FIXED:
+						if hs := np.GetCustomHexStrings(); len(hs) > 0 {
+							ok := false
+							for _, h := range hs {
+								pre, _ := hex.DecodeString(h)
+								if bytes.HasPrefix(s.Nonce, pre) {
+									ok = true
+								}
+							}
+							if !ok {
+								v.Add("nonce/fixed-prefix", "%s nonce % x starts with none of the configured prefixes %v", side, s.Nonce, hs)
+								return
+							}
+						}
+					}
+				}
+			}
+		}
+		// TCP fragmentation: a side that enables it writes at least one session segment in several pieces
+		if !p.UDP {
+			for _, t := range ex.W.Net.Streams {
+				tp := stp
+				if t.Dir == "c2s" {
+					tp = ctp
+				}
+				nseg := 0
+				for _, r := range d.Recs {
+					if r.Conn == t.ConnID && r.C2S == (t.Dir == "c2s") && r.Dgram == nil && r.Seg.IsSession() && r.Seg.WireLen > 60 {
+						nseg++
+					}
+				}
+				frag := tp.GetTcpFragment().GetEnable()
+				total := 0
+				for _, r := range d.Recs {
+					if r.Conn == t.ConnID && r.C2S == (t.Dir == "c2s") && r.Dgram == nil {
+						total++
+					}
+				}
+				if frag && nseg > 0 && len(t.Writes) <= total {
+					v.Add("tcp-fragment/not-applied", "%s direction of connection %d: fragmentation is enabled but %d segments were written in %d writes", t.Dir, t.ConnID, total, len(t.Writes))
+					return
+				}
+				if !frag && len(t.Writes) > total+d.TruncatedTails {
+					v.Add("tcp-fragment/unconfigured", "%s direction of connection %d: fragmentation is off but %d segments were written in %d writes", t.Dir, t.ConnID, total, len(t.Writes))
+					return
+				}
+			}
+		}
+	}
 }
